@@ -242,6 +242,11 @@ pub struct SCode {
 	pub local_vars: Vec<SLocalVar>,
 	/// sorted
 	pub local_var_types: Vec<SLocalVar>,
+	/// a LocalVariableTable or LocalVariableTypeTable attribute is present although neither table has an entry
+	/// (a reader reports "has a local variable table, with nothing in it"; absent tables are a different fact)
+	pub empty_local_table: bool,
+	/// a LineNumberTable attribute is present although it has no entry
+	pub empty_line_table: bool,
 	/// in code order
 	pub frames: Vec<(Idx, SFrame)>,
 	pub visible_type: Vec<STypeAnnotation>,
